@@ -67,3 +67,16 @@ package internalsrv
 //@   modifies ghost:fwdWrites, ghost:redir
 //@   at call isInternalRedirect do redir = ite(result, 1, 0)
 //@   ensures [body_withheld_exactly_for_internal_redirects] (redir == 1 ==> (fwdWrites == old(fwdWrites) && result0 == 0 && result1 == nil)) && (redir == 0 ==> fwdWrites == old(fwdWrites) + 1) && (redir == 0 || redir == 1)
+
+//@ unit internal_setup frames=on props=C02,C03,C09,C11 nilchecks=on filter=`internalsrv\.setup$`
+//@ // C02/C03 "never hidden files", C09 "internal takes effect before every content handler": when the setup returns, the
+//@ // site's hide list is the list as it was (the Casketfile entry that `root` put there included, each entry as it was)
+//@ // followed by the internal paths - done by the setup itself, before browse and the file server take their copies
+//@ use @verif/specs/stdlib.spec:casket_api
+//@ func internalParse
+//@   requires c != nil
+//@ extern (*github.com/tmpim/casket/caskethttp/httpserver.SiteConfig).AddMiddleware
+//@ func setup
+//@   requires c != nil
+//@   modifies SiteConfig.HiddenFiles, E:string
+//@   at call fieldstore:SiteConfig.HiddenFiles before [hide_list_becomes_the_old_one_then_the_internal_paths] arg0 == config && len(arg1) == len(config.HiddenFiles) + len(paths) && forall(k, 0, len(config.HiddenFiles), arg1[k] == config.HiddenFiles[k]) && forall(k, 0, len(paths), arg1[len(config.HiddenFiles) + k] == paths[k])
